@@ -85,6 +85,9 @@ def param_alternatives(ctx, h0, name, kind):
 
 SUITES = {
     'ir': {'module': 'specs.ir', 'spec_class': 'IRSpec', 'functions': 'specs.ir_functions', 'files': {}, 'obligations': 'all'},
+    'ns': {'module': 'specs.ns', 'spec_class': 'NSSpec', 'functions': 'specs.ns',
+           'files': {'DefaultNamespace': 'spydrnet/plugins/namespace_manager/default_namespace.py',
+                     'EdifNamespace': 'spydrnet/plugins/namespace_manager/edif_namespace.py'}, 'obligations': 'posts'},
     'compare': {'module': 'specs.compare', 'spec_class': 'CompareSpec', 'functions': 'specs.compare',
                 'files': {'Comparer': 'spydrnet/compare/compare_netlists.py'}, 'obligations': 'posts'},
 }
